@@ -17,6 +17,7 @@ open Model.Routing in
 def c06Seg (j : Json) : Except String Seg := do
   match (← j.getArr?).toList with
   | [Json.str "named", Json.str k, Json.arr sub] => pure (.named k.toList (← sub.toList.mapM c06Tok))
+  | [Json.str "bare", Json.str k] => pure (.bare k.toList)
   | _ => pure (.tok (← c06Tok j))
 
 def c06ErrJson : Model.Routing.Err → Json
@@ -48,11 +49,13 @@ def opC06Template (j : Json) : Except String Json := do
       ("rendered", jstr (renderSegs segs)),
       ("regex", patternJson (toRegexUnnamed ts)),
       ("matches", jarr (values.map fun v => Json.bool (matchesUnnamed ct ts v))),
+      ("chain_raises", jarr (values.map fun v => Json.bool (chainRaises ct ts v))),
       ("scanmatches", jarr (values.map fun v => Json.bool (match scanToks ts v with | some (_, []) => true | _ => false)))])
   | .error e => pure (c06ErrJson e)
   | .ok t =>
     pure (Json.mkObj [
-      ("rendered", jstr (render t)),
+      ("rendered", jstr (renderSegs segs)),
+      ("rendered_normal", jstr (render t)),
       ("key", jstr (templateKey t)),
       ("regex", patternJson (toRegex t)),
       ("captures", jarr (values.map fun v => optJson jstr (Model.Routing.capture ct t v))),
@@ -86,10 +89,33 @@ def opC06Explicit (j : Json) : Except String Json := do
         ("pairs", pairsJson (resolveExplicit ct ps r)),
         ("header", optJson jstr (header ct ⟨some ps, [], cs⟩ r))]))])
 
--- `{"op":"c06.implicit","verbs":[get,put,post,delete,patch,custom],"requests":[{attr: value}]}`
+open Model.Routing in
+def c06Verb (s : String) : Except String Verb :=
+  match s with
+  | "get" => pure .get | "put" => pure .put | "post" => pure .post
+  | "delete" => pure .delete | "patch" => pure .patch
+  | _ => if s.startsWith "custom:" then pure (.custom (s.toList.drop 7)) else throw s!"bad verb {s}"
+
+open Model.Routing in
+def c06Rule (j : Json) : Except String (Option HttpRule) := do
+  match j with
+  | Json.null => pure none
+  | _ =>
+    let verb ← c06Verb (String.ofList (← getStrL j "verb"))
+    let path ← getStrL j "path"
+    let bs ← (← getArrL j "bindings").mapM fun b => do
+      match (← b.getArr?).toList with
+      | [Json.str v, Json.str p] => pure ((← c06Verb v), p.toList)
+      | _ => throw "bad binding"
+    pure (some ⟨verb, path, bs⟩)
+
+-- `{"op":"c06.implicit","verbs":[get,put,post,delete,patch,custom] | "rule": null|{"verb","path","bindings"},
+--   "requests":[{attr: value}]}`
 open Model.Routing in
 def opC06Implicit (j : Json) : Except String Json := do
-  let verbs ← (← getArrL j "verbs").mapM fun v => do pure (← v.getStr?).toList
+  let verbs ← match j.getObjVal? "rule" with
+    | .ok rj => do pure (verbsOf (← c06Rule rj))
+    | .error _ => (← getArrL j "verbs").mapM fun v => do pure (← v.getStr?).toList
   let reqs ← (← getArrL j "requests").mapM c06Request
   let cs := (j.getObjValAs? Bool "client_streaming").toOption.getD false
   let ct := Pinned.classTables
@@ -97,12 +123,34 @@ def opC06Implicit (j : Json) : Except String Json := do
   let hs := fieldHeaders ct path
   pure (Json.mkObj [
     ("path", jstr path),
+    ("verbs", jarr (verbs.map jstr)),
     ("headers", jarr (hs.map jstr)),
     ("attrs", jarr (hs.map fun h => jstr (disambiguated h))),
     ("attrs_valid", jarr (hs.map fun h => Json.bool (attrPathValid (disambiguated h)))),
     ("results", jarr (reqs.map fun r => Json.mkObj [
       ("pairs", pairsJson (implicitPairs hs r)),
       ("header", optJson jstr (header ct ⟨none, verbs, cs⟩ r))]))])
+
+def c06Pairs (j : Json) (k : String) : Except String (List (List Char × List Char)) := do
+  (← getArrL j k).mapM fun p => do
+    match (← p.getArr?).toList with
+    | [Json.str k, Json.str v] => pure (k.toList, v.toList)
+    | _ => throw "bad pair"
+
+-- `{"op":"c06.transport","user":[[k,v]],"routing":null|str,"extra":[[k,v]]}`: the routing header values a
+-- gRPC server sees (all, in order) and the one an HTTP server sees (`dict(metadata)`)
+open Model.Routing in
+def opC06Transport (j : Json) : Except String Json := do
+  let user ← c06Pairs j "user"
+  let extra ← c06Pairs j "extra"
+  let routing ← match j.getObjVal? "routing" with
+    | .ok (Json.str s) => pure (some s.toList)
+    | _ => pure none
+  let md := callMetadata user routing extra
+  pure (Json.mkObj [
+    ("grpc", jarr ((grpcValues md hdrName).map jstr)),
+    ("rest", optJson jstr (restValue md hdrName)),
+    ("rest_keys", jarr ((restHeaders md).map fun kv => jstr kv.1))])
 
 -- `{"op":"c06.encode","pairs":[[k,v],…]}`
 open Model.Routing in
@@ -130,8 +178,20 @@ def opC06Schema (j : Json) : Except String Json := do
   | .error e => pure (c06ErrJson e)
   | .ok ps => pure (Json.mkObj [("results", jarr (reqs.map fun r => pairsJson (resolveSchema ct ps r)))])
 
+-- `{"op":"c06.literal","lit":"v1.0"}`: the pattern of a template that is ONE literal segment, as the code inserts it
+open Model.Routing in
+def opC06Literal (j : Json) : Except String Json := do
+  let cs ← getStrL j "lit"
+  let values ← (← getArrL j "values").mapM fun v => do pure (← v.getStr?).toList
+  let pat : Pattern := ⟨seqR (.bol :: litItemsReal cs ++ [.eol]), 0, []⟩
+  pure (Json.mkObj [
+    ("regex", patternJson pat),
+    ("plain", Json.bool (litItemsReal cs == tokItems (.lit cs))),
+    ("matches", jarr (values.map fun v => Json.bool (pyMatch Pinned.classTables pat.re v).isSome))])
+
 def opsC06 : List (String × (Json → Except String Json)) :=
   [("c06.template", opC06Template), ("c06.explicit", opC06Explicit), ("c06.schema", opC06Schema),
-   ("c06.implicit", opC06Implicit), ("c06.encode", opC06Encode)]
+   ("c06.implicit", opC06Implicit), ("c06.encode", opC06Encode), ("c06.transport", opC06Transport),
+   ("c06.literal", opC06Literal)]
 
 end GapicModel.Driver
